@@ -433,6 +433,13 @@ func (e *Executor) OnTargetComplete(ctx context.Context, target *model.Target, u
 	target.OutputsLoaded = true
 	target.OutputHash = targetResult.OutputHash
 
+	if !e.enableCache {
+		// Caching is disabled for this build: leave the cache alone. The record computed above lists no
+		// outputs; stored under the target's change hash it would replace the complete record of an
+		// earlier build and force the next cache-enabled build to execute the target again.
+		return nil
+	}
+
 	cacheStart := time.Now()
 	defer func() {
 		target.CacheTime += time.Since(cacheStart)
@@ -474,9 +481,12 @@ func (e *Executor) LoadDependencyOutputs(
 		}
 
 		// A dependency that was executed (or loaded) earlier in this build is up to date whatever its
-		// tags say: re-running a no-cache dependency for every dependant would execute it several times
-		// per build (and once per path on diamond-shaped graphs of no-cache targets).
-		alreadyAvailable := e.registry.OutputsAvailable(localDep)
+		// tags say and whatever the cache holds: re-running a no-cache dependency for every dependant
+		// would execute it several times per build (and once per path on diamond-shaped graphs of
+		// no-cache targets), and a build with the cache disabled has no record to look up.
+		if e.registry.OutputsAvailable(localDep) {
+			continue
+		}
 
 		targetResult, err := e.targetCache.Load(ctx, localDep.ChangeHash)
 
@@ -492,7 +502,7 @@ func (e *Executor) LoadDependencyOutputs(
 			loadErr = e.registry.LoadOutputs(ctx, localDep, targetResult, progress)
 		}
 
-		if loadErr != nil || (localDep.SkipsCache() && !alreadyAvailable) {
+		if loadErr != nil || localDep.SkipsCache() {
 			logger.Debugf(
 				"%s: failed to load output for dependency %s (re-rerunning): err=%v no-cache=%t",
 				target.Label,
